@@ -294,6 +294,9 @@ def run(prog: Program, res: Result, tier: str) -> None:
 
     res.assumptions += ["read_plan delivers the selected range once in blocks of at most gulp samples (C01)",
                         "nsub divides nchans and ffactor divides nchans (the property's own quantifier)"]
+    # ---- R2 (cont.) no negative delay reaches the sub-banding kernel (shared with C09.R3; F38) -----------------------------
+    from ..lints import check_delay_sign
+    check_delay_sign(prog, res, "R2", only={"subband"})
     # ---- R7 what the transforms consume: the read plan (C01) and, for remove_zerodm, the bandpass reduction (C06) ---
     depends(res, "R7", prog, tier, "C01", why="the blocks these loops consume come from read_plan: the plan rules of C01 (and, through them, the multi-file stream rules of C02) are re-evaluated here")
     depends(res, "R7", prog, tier, "C06", accept=lambda o: "bandpass" in (o.key or "") or "extract_bpass" in (o.key or "") or "bandpass" in (o.where or ""),
@@ -419,6 +422,8 @@ def _scratch_big_enough(res, op: StreamOp, fn: FuncInfo, lp, out, tag: str, nch:
 B = "sigpyproc/base.py"
 K = "sigpyproc/core/kernels.py"
 MUTANTS = [
+    {"id": "c07-revert-F38", "file": "sigpyproc/base.py", "expect": "C07.R2",
+     "old": "        chan_delays = self.header.get_dmdelays(dm)\n        # Channels that lead the reference (ascending band, negative DM) have\n        # negative delays: count them from the earliest channel instead\n        min_delay = min(0, int(chan_delays.min()))\n        chan_delays = chan_delays - min_delay\n        max_delay = int(chan_delays.max())\n        gulp = max(2 * max_delay, gulp)\n        # must be memset to zero in c code", "new": "        chan_delays = self.header.get_dmdelays(dm)\n        min_delay = 0\n        max_delay = int(chan_delays.max())\n        gulp = max(2 * max_delay, gulp)\n        # must be memset to zero in c code"},
     {"id": "c07-invert-whole-block", "file": K, "expect": "C07.R1",
      "old": "        outarray[nchans * isamp : nchans * (isamp + 1)] = array[\n            nchans * isamp : nchans * (isamp + 1)\n        ][::-1]",
      "new": "        outarray[nchans * isamp : nchans * (isamp + 1)] = array[\n            nchans * isamp : nchans * (isamp + 1)\n        ]"},
